@@ -804,6 +804,45 @@ static int mode_gen(unsigned long seed, long count, const std::string &outp) {
 }
 
 // ------------------------------------------------------------------------------------------------ selftest
+// schemes with more generators than the fixed-base tables hold (TMCG_MAX_FPOWM_N = 256): a well-formed set built by hand
+// (p = 1229, q = 307, k = 4; h = b, g_i = b^(i+1) for a generator b of the subgroup), read through the stream constructors,
+// untouched and with one generator replaced by an element outside the subgroup at indices below, at and above the limit
+static int mode_many(const std::string &outp) {
+	FILE *out = fopen(outp.c_str(), "w");
+	const unsigned long P = 1229, Q = 307, K = 4;
+	Mpz p(P), q(Q), b(2), one(1); mpz_powm_ui(b, b, K, p);           // 2^k generates the subgroup unless it is 1
+	if (mpz_cmp_ui(b.v, 1) == 0) { mpz_set_ui(b, 3); mpz_powm_ui(b, b, K, p); }
+	Mpz bad(2); { Mpz t; for (unsigned long x = 2; x < P - 1; x++) { mpz_set_ui(bad, x); mpz_powm_ui(t, bad, Q, p); if (mpz_cmp_ui(t.v, 1) != 0) break; } }
+	const size_t ns[] = {256, 257, 300};
+	long run = 0;
+	for (size_t ni = 0; ni < 3; ni++) {
+		size_t n = ns[ni];
+		std::vector<unsigned long> elems;       // h, g_1 .. g_n
+		{ Mpz x(1); for (size_t i = 0; i <= n; i++) { mpz_mul(x, x, b); mpz_mod(x, x, p); elems.push_back(mpz_get_ui(x)); } }
+		long idx[] = {-1, 0, 1, 128, 254, 255, 256, 257, (long)n - 2, (long)n - 1};
+		for (size_t ci = 0; ci < sizeof(idx) / sizeof(idx[0]); ci++) {
+			long j = idx[ci]; if (j >= (long)n) continue;
+			std::vector<unsigned long> t(elems); if (j >= 0) t[(size_t)j + 1] = mpz_get_ui(bad);
+			std::ostringstream com; com << b62(Mpz(P).v) << "\n" << b62(Mpz(Q).v) << "\n" << b62(Mpz(K).v) << "\n";
+			for (size_t i = 0; i < t.size(); i++) com << b62(Mpz(t[i]).v) << "\n";
+			const char *cls[] = {"com", "skc", "vsshe"};
+			for (int c = 0; c < 3; c++) {
+				Sizes sz; sz.F = 11; sz.G = 9; sz.E = 0; sz.le = (c == 2) ? 4 : 0; sz.canon = false; sz.n = n;
+				bool cg = false;
+				if (c == 0) { std::stringstream in(com.str()); PedersenCommitmentScheme o(n, in, sz.F, sz.G); cg = o.CheckGroup(); }
+				else if (c == 1) { std::stringstream in(com.str()); GrothSKC o(n, in, 4, sz.F, sz.G); cg = o.CheckGroup(); }
+				else { std::stringstream in; in << b62(Mpz(P).v) << "\n" << b62(Mpz(Q).v) << "\n" << b62(Mpz(elems[1]).v) << "\n" << b62(Mpz(elems[0]).v) << "\n" << com.str();
+				       GrothVSSHE o(n, in, sz.le, sz.F, sz.G); cg = o.CheckGroup(); }
+				json ev; ev["e"] = "Gen"; ev["cls"] = cls[c]; ev["via"] = "many"; ev["v"] = vjson("com", sz); ev["run"] = run++;
+				json tt = json::array(); tt.push_back(P); tt.push_back(Q); tt.push_back(K); for (size_t i = 0; i < t.size(); i++) tt.push_back(t[i]);
+				ev["t"] = tt; ev["cg"] = cg; ev["eq"] = Q; ev["corrupted"] = j;
+				fprintf(out, "%s\n", ev.dump().c_str());
+			}
+		}
+	}
+	fclose(out); return 0;
+}
+
 static int mode_selftest() {
 	// nested stream offsets: distinct values per level must arrive in the intended members
 	int bad = 0;
@@ -841,6 +880,7 @@ int main(int argc, char **argv) {
 		if (m == "nbr" && argc >= 4) return mode_nbr(argv[2], argv[3], argc > 4 ? atol(argv[4]) : 0, argc > 5 ? atol(argv[5]) : 1, argc > 6 ? atol(argv[6]) : 0);
 		if (m == "box" && argc == 4) return mode_box(argv[2], argv[3]);
 		if (m == "gen" && argc == 5) return mode_gen(strtoul(argv[2], 0, 10), atol(argv[3]), argv[4]);
+		if (m == "many" && argc == 3) return mode_many(argv[2]);
 		if (m == "selftest") return mode_selftest();
 	} catch (const std::exception &e) { fprintf(stderr, "drv_group: %s\n", e.what()); return 2; }
 	fprintf(stderr, "usage: drv_group hash|cases|nbr|box|gen|selftest ...\n");
